@@ -209,7 +209,11 @@ def _deserialize_check_stats(check, serialized_check_stats, dtype=None):
     if isinstance(serialized_check_stats, dict):
         # handle case where serialized check stats are in the form of a
         # dictionary mapping Check arg names to values.
-        options = serialized_check_stats.pop("options", {})
+        # (the mapping belongs to the caller: it is read, not emptied)
+        options = serialized_check_stats.get("options", {})
+        serialized_check_stats = {
+            k: v for k, v in serialized_check_stats.items() if k != "options"
+        }
         # Handle special case for unary checks with options
         if (
             "value" in serialized_check_stats
